@@ -38,7 +38,7 @@ func checkBasic(r *ev.Run, c *Case, key string) {
 			data := c.Data
 			name := c.Name
 			r.Violate(key+"/"+l.Name, fmt.Sprintf("%s.Load %s [%s]", l.Name, bad, name),
-				map[string]interface{}{"loader": l.Name, "name": name, "len": len(data), "data_hex_first_512": hexHead(data, 512)}, nil)
+				map[string]interface{}{"loader": l.Name, "name": name, "len": len(data), "data_hex_first_65536": hexHead(data, 65536)}, nil)
 		}
 	}
 }
